@@ -82,10 +82,67 @@ def parse_result_text(text):
     return res
 
 
+BUILD_DIR = os.path.join(CONTRACTS, "target", "kani", "x86_64-unknown-linux-gnu", "debug", "build", "ckc-contracts")
+
+
+def prune_build_dirs(keep=3):
+    """every distinct harness set gets its own build directory; keep only the newest few"""
+    try:
+        ds = sorted((os.path.join(BUILD_DIR, d) for d in os.listdir(BUILD_DIR)), key=os.path.getmtime, reverse=True)
+    except OSError:
+        return
+    for d in ds[keep:]:
+        shutil.rmtree(d, ignore_errors=True)
+
+
+def goto_hashes(obs, log):
+    """Compile the harnesses of `obs` (no verification) and return {obligation: sha256 of its goto
+    binary}. The goto binary of a harness contains every function reachable from it (MIR linker),
+    with source locations, so an unchanged hash means CBMC would be given the identical program.
+    Returns ({} , error text) when the build fails."""
+    import hashlib
+    registry.generate()
+    prune_build_dirs(keep=2)
+    try:
+        shutil.copyfile("/repo/Cargo.lock", os.path.join(CONTRACTS, "Cargo.lock"))
+    except OSError:
+        pass
+    cmd = ["cargo", "kani", "--lib", "-Z", "stubbing", "-Z", "unstable-options", "--only-codegen", "--exact"]
+    for o in obs:
+        cmd += ["--harness", "kani_gen::" + registry.harness_name(o["name"])]
+    t0 = time.time()
+    p = subprocess.run(cmd, cwd=CONTRACTS, env=ENV, stdout=subprocess.PIPE, stderr=subprocess.STDOUT, text=True)
+    if p.returncode != 0:
+        return {}, "\n".join(p.stdout.splitlines()[-60:])
+    newest = {}
+    for d, _, files in os.walk(BUILD_DIR):
+        for f in files:
+            if f.endswith(".symtab.out"):
+                newest.setdefault(f, []).append(os.path.join(d, f))
+    out = {}
+    for o in obs:
+        h = registry.harness_name(o["name"])
+        suffix = "%d%s.symtab.out" % (len(h), h)
+        cands = [pth for f, ps in newest.items() if f.endswith(suffix) for pth in ps]
+        if not cands:
+            continue
+        best = max(cands, key=os.path.getmtime)
+        if os.path.getmtime(best) < t0 - 1:
+            continue  # stale artefact of an earlier build: do not trust
+        sha = hashlib.sha256()
+        with open(best, "rb") as f:
+            sha.update(f.read())
+        sha.update(repr((o["unwind"], o["solver"], [(st["target"], st["with"]) for st in o["stubs"]])).encode())
+        out[o["name"]] = sha.hexdigest()[:32]
+    log("kani codegen: %d harness(es) hashed in %.0fs" % (len(out), time.time() - t0))
+    return out, None
+
+
 def run_batch(obs, jobs, timeout_s, log):
     """Run the Kani harnesses of `obs` in one cargo-kani invocation. Returns
     {obligation name: result dict}; a build failure returns {'__build_error__': text}."""
     registry.generate()
+    prune_build_dirs(keep=3)
     if os.path.isdir(OUTDIR):
         shutil.rmtree(OUTDIR)
     lock = os.path.join(CONTRACTS, "Cargo.lock")
